@@ -13,6 +13,8 @@ INST = {
     "I5": ("s5", [1]),      # same service id AND instance id as I1, other major version
     "I6": ("s1", [1, 2]),   # the very same service as I1 (another listener, another endpoint option): both answer a find
 }
+INST["I7"] = ("s4", [1])   # an instance constructed with a Timings object of its own: another ANNOUNCE_TTL than the stack's
+INST_TTL = {"I7": 30}
 SUBSVC = ["s1", "s2", "s3", "s4"]
 
 
@@ -45,8 +47,9 @@ def timings(tc):
 
 
 def inst_table(insts):
-    return {i: {"svc": INST[i][0], "egs": INST[i][1],
-                "subs": [s for s in SUBSVC if sdenv.sub_matches(INST[i][0], s)]} for i in insts}
+    return {i: dict({"svc": INST[i][0], "egs": INST[i][1],
+                     "subs": [s for s in SUBSVC if sdenv.sub_matches(INST[i][0], s)]},
+                    **({"ttl": INST_TTL[i]} if i in INST_TTL else {})) for i in insts}
 
 
 def find_table(insts):
@@ -63,8 +66,9 @@ def mon_cfg(tc, insts, ann0=()):
 
 def spec_consts(tc, insts, ann0=(), rand_vals=(0, 1, 2, 3), sw="AllOff", max_id=65535):
     it = inst_table(insts)
-    inst = "[" + ", ".join('%s |-> [svc |-> "%s", egs |-> %s, subs |-> %s]' %
-                           (i, v["svc"], tlc.to_tla(set(v["egs"])), tlc.to_tla(set(v["subs"]))) for i, v in it.items()) + "]" \
+    inst = "[" + ", ".join('%s |-> [svc |-> "%s", egs |-> %s, subs |-> %s%s]' %
+                           (i, v["svc"], tlc.to_tla(set(v["egs"])), tlc.to_tla(set(v["subs"])), (", ttl |-> %d" % v["ttl"]) if "ttl" in v else "")
+                           for i, v in it.items()) + "]" \
         if it else "<<>>"
     fm = "[" + ", ".join('%s |-> %s' % (f, tlc.to_tla(set(v))) for f, v in find_table(insts).items()) + "]"
     fields = ", ".join("%s |-> %d" % (k, v) for k, v in tc.items())
@@ -74,7 +78,8 @@ def spec_consts(tc, insts, ann0=(), rand_vals=(0, 1, 2, 3), sw="AllOff", max_id=
 
 
 def run_schedule(sched, tc, insts, ann0=(), rand=None, t_extra=None, send_failures=()):
-    st = sdenv.Stack(tim=timings(tc), rand=rand)
+    # (every other schedule configures the timings the late way: fields assigned on the existing protocol object)
+    st = sdenv.Stack(tim=timings(tc), rand=rand, late_timings=len(sched) % 2 == 1)
     st.prot.transport.fail = set(send_failures)
     ann = st.prot.announcer
 
@@ -91,7 +96,11 @@ def run_schedule(sched, tc, insts, ann0=(), rand=None, t_extra=None, send_failur
     for i in insts:
         svcname, egs = INST[i]
         service = sdenv.service(svcname, eventgroups=frozenset(egs), options_1=(sdenv.EP["e1"],) if i == "I1" else (sdenv.EP["e4"],) if i == "I6" else ())
-        objs[i] = sd.ServiceInstance(service, sdenv.ServerL(st.rec, i, decide), ann, st.prot.timings)
+        own = st.prot.timings
+        if i in INST_TTL:
+            import dataclasses
+            own = dataclasses.replace(st.prot.timings, ANNOUNCE_TTL=INST_TTL[i])
+        objs[i] = sd.ServiceInstance(service, sdenv.ServerL(st.rec, i, decide), ann, own)
     for i in ann0:
         ann.announce_service(objs[i])
     # an "on-demand" application: the first time a client of <inst> goes away it withdraws the service, from inside the callback
@@ -99,6 +108,13 @@ def run_schedule(sched, tc, insts, ann0=(), rand=None, t_extra=None, send_failur
         if inp["op"] == "arm_withdraw":
             i = inp["inst"]
             objs[i].listener.on_unsubscribed = (lambda i=i: st.call({"op": "stop_announce", "inst": i}, ann.stop_announce_service, objs[i]))
+
+    # an application whose client_unsubscribed callback fails (once) for <inst>
+    def boom():
+        raise sdenv.AppError("client_unsubscribed of the application failed")
+    for inp in sched:
+        if inp["op"] == "arm_raise":
+            objs[inp["inst"]].listener.on_unsubscribed = boom
 
     def do(inp):
         op = inp["op"]
@@ -117,7 +133,7 @@ def run_schedule(sched, tc, insts, ann0=(), rand=None, t_extra=None, send_failur
             st.call(ev, ann.stop_announce_service, objs[inp["inst"]])
         elif op == "connlost":
             st.call(ev, st.prot.connection_lost, None)
-        elif op == "arm_withdraw":
+        elif op in ("arm_withdraw", "arm_raise"):
             pass
         elif op == "queue":
             st.call(ev, ann.queue_send, sdenv.conc_entry(inp["en"]),
